@@ -211,3 +211,61 @@ def c15(c):
     to = validate_traces("Trace_System", traces_in(c.work, "system"), parallel=1, sparse=True, xmx="6g")
     c.add_traces(to, keyfn=system_key, relevant=lambda ev, v: ev.get("ev") == "keygen" or ev.get("name", "").startswith("keygen"))
     c.assumptions += ["SHA3-256 digests identify the key byte strings", "'every seed' is sampled; all 256 bit positions are covered for the sampled base seeds"]
+
+
+def generic_key(ev, v):
+    k = {"ev": ev.get("ev"), "tag": ev.get("tag"), "branch": v[3] if len(v) > 3 else None}
+    for f in ("op", "b", "n", "i", "first"):
+        if f in ev:
+            k[f] = ev[f]
+    for f in ("str", "a", "v", "x"):
+        if f in ev and isinstance(ev[f], list):
+            k[f + "_sha3"] = runner_sha([int(z) % 256 for z in ev[f]])
+    return k
+
+
+def c12(c):
+    thorough = c.tier == "thorough"
+    c.cov["rule"] = ("MC_Felt: the implementation-shaped model of the field type vs arithmetic mod q on all 12289^2 operand pairs (every 16th left "
+                     "operand in quick), all residues for neg/inverse/centred, all 65536 conversion inputs; the pre-fix conversion must fail. "
+                     "Trace_Felt: the real code's complete unary tables entry by entry and row digests of add/sub/mul for every (quick: 256) "
+                     "right operand recomputed by TLC. distinct_nontrivial = distinct (operation, event class) pairs")
+    mc = McOutcome()
+    model_check(mc, [dict(module="MC_Felt", cfg="MC_Felt" if thorough else "MC_Felt_q", workers=16, xmx="6g", timeout=3600),
+                     dict(module="MC_Felt", cfg="MC_Felt_D3", workers=2, expect="violation")])
+    c.add_mc(mc)
+    drive("c12", ["--tier", c.tier, "--seed", c.seed, "--out", c.work, "--shards", 14])
+    to = validate_traces("Trace_Felt", traces_in(c.work, "felt"), parallel=PAR, timeout=3600)
+    c.add_traces(to, keyfn=generic_key)
+    c.cov["exhaustive"] = thorough
+    c.assumptions += ["hook wrappers construct operands with Felt::new(a) for a in [0,q) (identity there, itself checked by the 'new' table)"]
+
+
+def c11(c):
+    thorough = c.tier == "thorough"
+    c.cov["rule"] = ("MC_Ntt: the butterfly network is the evaluation map at odd powers of psi for every basis vector and every n <= 1024 (hence "
+                     "the product theorem, by linearity), inverse o forward = id and product = schoolbook on the toy ring exhaustively. "
+                     "Trace_Ntt: the real tables (all 2059 constants) against psi^bitrev; the real fft on basis vectors (all for n <= 64, all "
+                     "2047 in thorough) against the evaluation map; real ifft(fft a . fft b) against the schoolbook product in TLC at every n")
+    mc = McOutcome()
+    model_check(mc, [dict(module="MC_Ntt", cfg="MC_Ntt" if thorough else "MC_Ntt_q", workers=16, xmx="6g", timeout=3600)])
+    c.add_mc(mc)
+    drive("c11", ["--tier", c.tier, "--seed", c.seed, "--out", c.work, "--shards", 14])
+    to = validate_traces("Trace_Ntt", traces_in(c.work, "ntt"), parallel=PAR, timeout=3600)
+    c.add_traces(to, keyfn=generic_key)
+    c.assumptions += ["linearity of each butterfly stage (by construction of the action) extends the basis-vector theorem to all inputs"]
+
+
+def c14(c):
+    thorough = c.tier == "thorough"
+    c.cov["rule"] = ("MC_Keccak: SHAKE-256 in TLA+ against FIPS-202 known answers; MC_HashToPoint: the reader on all 6^6 pseudo-streams over the "
+                     "boundary alphabet {0,12288,12289,61444,61445,65535}. Trace_Hash: real hash_to_point on strings around the SHAKE rate and "
+                     "on strings searched so that the consumed stream contains 61444 / 61445 / 65535 / multiples of q / rejections in the first "
+                     "and last consumed position; TLC recomputes SHAKE-256 and the rejection sampling from the string alone")
+    mc = McOutcome()
+    model_check(mc, [dict(module="MC_Keccak", cfg="MC_Keccak", workers=4), dict(module="MC_HashToPoint", cfg="MC_HashToPoint", workers=16)])
+    c.add_mc(mc)
+    drive("c14", ["--tier", c.tier, "--seed", c.seed, "--out", c.work, "--shards", 14], timeout=3600)
+    to = validate_traces("Trace_Hash", traces_in(c.work, "hash"), parallel=PAR, timeout=3600)
+    c.add_traces(to, keyfn=generic_key)
+    c.assumptions += ["the search for boundary chunks (driver, sha3 crate) only selects inputs; the verdict is TLC's recomputation"]
